@@ -177,7 +177,7 @@ func pickExprDoc(r *gen.Rng) (exprs []string, doc DocSpec, src string) {
 		if r.Chance(1, 10) {
 			exprs = append(exprs, r.Pick([]string{"nums == nums", "objs == objs", "o1 == o2", "nums == `[3,1,2]`", "objs[?k == `1`]", "objs[?t == `[]`]", "mixed[?k != `1`]", "nested[?@ == `[3]`]", "[nums, objs] == [nums, objs]", "o1.b.c != nums"}))
 		}
-		return exprs, DocSpec{Kind: "json", Text: gen.Doc(r), CapSeed: r.Next() | 1, GoNums: goNumSeed(r)}, "random"
+		return exprs, DocSpec{Kind: "json", Text: gen.DocFor(r, strings.Join(exprs, " ")), CapSeed: r.Next() | 1, GoNums: goNumSeed(r)}, "random"
 	case x < 70:
 		n := 1 + r.Intn(3)
 		for i := 0; i < n; i++ {
@@ -186,7 +186,7 @@ func pickExprDoc(r *gen.Rng) (exprs []string, doc DocSpec, src string) {
 				exprs[i] = gen.CaseFlip(r, exprs[i])
 			}
 		}
-		return exprs, DocSpec{Kind: "json", Text: gen.Doc(r), CapSeed: r.Next() | 1, GoNums: goNumSeed(r)}, "systematic-random"
+		return exprs, DocSpec{Kind: "json", Text: gen.DocFor(r, strings.Join(exprs, " ")), CapSeed: r.Next() | 1, GoNums: goNumSeed(r)}, "systematic-random"
 	case x < 90:
 		c := corpus[r.Intn(len(corpus))]
 		exprs = append(exprs, c.Expr)
@@ -266,7 +266,7 @@ func genC06(master uint64, idx int) *Workload {
 		w.Exprs = []string{systematic[idx/2]}
 		text := gen.CanonicalDoc
 		if idx%2 == 1 {
-			text = gen.Doc(r)
+			text = gen.DocFor(r, systematic[idx/2])
 		}
 		w.Docs = []DocSpec{{Kind: "json", Text: text, CapSeed: r.Next() | 1}}
 		w.Mode = "systematic"
@@ -310,7 +310,7 @@ func genC12(master uint64, idx int) *Workload {
 		w.Exprs = []string{systematic[idx/2]}
 		text := gen.CanonicalDoc
 		if idx%2 == 1 {
-			text = gen.Doc(r)
+			text = gen.DocFor(r, systematic[idx/2])
 		}
 		d = DocSpec{Kind: "json", Text: text, CapSeed: r.Next() | 1}
 		src = "systematic"
@@ -353,7 +353,7 @@ func genC12(master uint64, idx int) *Workload {
 		for c := 0; c < nc; c++ {
 			dc := d
 			if d.Kind == "json" && r.Chance(1, 2) && src != "compliance" {
-				dc.Text = gen.Doc(r)
+				dc.Text = gen.DocFor(r, w.Exprs[0])
 			}
 			dc.CapSeed = r.Next() | 1
 			if d.Kind == "typed" && r.Chance(2, 3) {
@@ -421,7 +421,7 @@ func genC12(master uint64, idx int) *Workload {
 		for i := r.Intn(3); i > 0; i-- {
 			dc := d
 			if d.Kind == "json" && src != "compliance" {
-				dc.Text = gen.Doc(r)
+				dc.Text = gen.DocFor(r, w.Exprs[0])
 			}
 			dc.CapSeed = r.Next() | 1
 			if d.Kind == "typed" {
@@ -758,8 +758,22 @@ func schedWorker(prop, tier string, master uint64, from, to int, maxWall time.Du
 		}
 		for _, w := range ws {
 			progressRun(idx)
+			if os.Getenv("VERIF_TRACE_RUNS") != "" {
+				d := w.describe()
+				if len(d) > 400 {
+					d = d[:400] + "…"
+				}
+				sz := 0
+				for _, dc := range w.Docs {
+					sz += len(dc.Text)
+				}
+				fmt.Fprintf(os.Stderr, "run %d (%s, policy %s, hash_every=%v, docs %d bytes): %s\n", idx, w.Mode, simrt.Policy(w.Sched.Policy), w.HashEvery, sz, d)
+			}
 			t0 := time.Now()
 			rep := runSched(w)
+			if os.Getenv("VERIF_TRACE_RUNS") != "" {
+				fmt.Fprintf(os.Stderr, "  -> %d steps, %d preemptions, %d events, quantum %d, P %d, est %d, checks %d, %.0f ms\n", rep.Out.Steps, rep.Out.Preemptions, len(rep.Out.Events), w.Sched.Quantum, w.Sched.P, w.Sched.EstSteps, wt.checks, float64(time.Since(t0).Microseconds())/1000)
+			}
 			if ms := float64(time.Since(t0).Microseconds()) / 1000; ms > st.SlowestMs {
 				st.SlowestMs = ms
 				d := w.describe()
@@ -962,11 +976,17 @@ func loadSites(path string) {
 		Sites     []SiteInfo `json:"sites"`
 		Functions []funcInfo `json:"functions"`
 		LexChars  []string   `json:"lex_chars"`
+		SyncSites []string   `json:"sync_sites"`
 	}
 	if err := json.Unmarshal(b, &rp); err != nil {
 		fatal2("site table: %v", err)
 	}
 	extraExprs = append(extraFunctionExprs(rp.Functions), extraSyntaxExprs(rp.LexChars)...)
+	for _, ss := range rp.SyncSites {
+		if strings.HasSuffix(ss, " go") {
+			libHasGo = true
+		}
+	}
 	siteTable = rp.Sites
 	siteWrite = make([]bool, len(siteTable))
 	for i, s := range siteTable {
